@@ -106,9 +106,14 @@ func c08EnumLeaves(t reflect.Type, path, jsonName string, mk func(root reflect.V
 		}
 		*out = append(*out, c08Leaf{path + "[]", func(root, val reflect.Value) { mk(root).Set(val) }, t, jsonName})
 		c08EnumLeaves(t.Elem(), path+"[0]", jsonName, func(root reflect.Value) reflect.Value {
+			// the element that carries the value is FOLLOWED by a default (empty) element: whatever a decoder keeps from one
+			// element to the next (a reused scratch value, a cursor) shows in the second one
 			s := mk(root)
 			if s.Len() == 0 {
-				s.Set(reflect.MakeSlice(t, 1, 1))
+				s.Set(reflect.MakeSlice(t, 2, 2))
+				if t.Elem().Kind() == reflect.Ptr {
+					s.Index(1).Set(reflect.New(t.Elem().Elem()))
+				}
 			}
 			return s.Index(0)
 		}, depth+1, out)
@@ -211,6 +216,13 @@ func c08Boundary(t reflect.Type) []reflect.Value {
 			vs = append(vs, reflect.ValueOf([]byte{}).Convert(t), reflect.ValueOf([]byte{0, 255, 1}).Convert(t), reflect.ValueOf([]byte("<html>&")).Convert(t))
 		} else {
 			vs = append(vs, reflect.MakeSlice(t, 0, 0)) // present but empty
+			if k := t.Elem().Kind(); k == reflect.Ptr || k == reflect.Struct {
+				s := reflect.MakeSlice(t, 1, 1) // one default element
+				if k == reflect.Ptr {
+					s.Index(0).Set(reflect.New(t.Elem().Elem()))
+				}
+				vs = append(vs, s)
+			}
 			if k := t.Elem().Kind(); k != reflect.Ptr && k != reflect.Struct && k != reflect.Interface {
 				for _, b := range c08Boundary(t.Elem()) {
 					s := reflect.MakeSlice(t, 2, 2)
